@@ -79,4 +79,18 @@ CHECKS = {
             {"harness": "c02_lifecycle", "mode": "udp", "flavour": "asan", "runs": {"quick": 7000, "thorough": 600000}, "wall": {"quick": 30, "thorough": 1200}, "seed_off": 2},
         ],
     },
+    "C03": {
+        "level": "exploration",
+        "rule": ("each run = one seeded world (MSS 1..64 KiB, receive window 16 B..64 KiB, short reads, ET/LT, batching, ioReadChunk 1..64 KiB) with a scripted peer writing a keyed "
+                 "stream in drawn chunks then FIN / RST / hold, and an application plan of 6-66 operations: receiveSync (buffer 1..100000, timeout 0..300 ms), setReadMode among "
+                 "Sync/Async/Disabled (optionally from a second thread), sleeps; flavours: sync/async mix, with Disabled, small maxSyncReceiveBuffer (overflow); followed by a "
+                 "fault-free drain; non-trivial = at least one context switch; distinct = distinct (interleaving hash, abstract state hash)"),
+        "real": ["iora::network::Transport + Transport::Impl (receiveSync, setReadMode, onData/onClose handlers)", "TcpEngine", "TimerService"],
+        "stub": COMMON_STUB + ["kernel TCP sockets, epoll, eventfd, timerfd (simrt/net.cpp)", "the remote peer (scripted blocking socket)"],
+        "assumptions": ["one receiveSync at a time per session (single-waiter contract)", "at most one data callback may be in flight when Disabled takes effect",
+                        "overflow runs stay in Sync mode"],
+        "jobs": [
+            {"harness": "c03_syncrecv", "flavour": "asan", "runs": {"quick": 16000, "thorough": 1500000}, "wall": {"quick": 45, "thorough": 1800}},
+        ],
+    },
 }
